@@ -137,8 +137,36 @@ def check_collect(missing, badsig, declare, tentative, how, deep):
     return []
 
 
+def check_roles(rsig, isig, order):
+    """ONE implementation function met in several binding roles, verified one after another: the verdict of each
+    verification is that of the statement for that role, whatever was verified before"""
+    from zope.interface import alsoProvides
+    iface = InterfaceClass(common.uname('IR'), (Interface,), {'m': mkfunc(rsig)})
+    K = type(common.uname('KR'), (object,), {'m': mkfunc(isig, with_self=True)})
+    classImplements(K, iface)
+    alsoProvides(K, iface)
+    inst = K()
+    roles = {'class': (verifyClass, K, inst.m), 'classobj': (verifyObject, K, K.m), 'object': (verifyObject, inst, inst.m)}
+    bad = []
+    done = []
+    for role in order:
+        verify, cand, bound = roles[role]
+        exp_ok = admitted_ok(rsig, bound)
+        try:
+            verify(iface, cand)
+            got_ok = True
+        except Invalid:
+            got_ok = False
+        if got_ok != exp_ok:
+            bad.append(('roles', '%s of the %s after %r: interface m%s, attribute as seen there %s: verification %s but the admitted '
+                        'call shapes %s' % (verify.__name__, role, done, inspect.signature(mkfunc(rsig)), inspect.signature(bound),
+                                            'succeeded' if got_ok else 'failed', 'all bind' if exp_ok else 'do not all bind')))
+        done.append(role)
+    return bad
+
+
 def replay(kind, *args):
-    bad = check_pair(*args) if kind == 'pair' else check_collect(*args)
+    bad = check_pair(*args) if kind == 'pair' else (check_roles(*args) if kind == 'roles' else check_collect(*args))
     for sig, what in bad:
         print('violated:', sig, what)
     sys.exit(1 if bad else 0)
@@ -147,6 +175,7 @@ def replay(kind, *args):
 def run(ctx):
     ctx.rule = ('all pairs of method signatures with <=2 required, <=2 defaulted, optional *args/**kw (24x24) for object, '
                 'class and function-attribute verification, oracle inspect.Signature.bind over the admitted call shapes; '
+                'the same implementation function verified in several binding roles one after another (class, class object providing the interface, instance); '
                 'plus all subsets of missing attributes / incompatible methods x declared x tentative x class/object on a '
                 '2- and 3-deep interface chain; distinct = distinct (case) tuples')
     ctx.bounds = 'parameters per kind <= 2; 5 names'
@@ -158,6 +187,15 @@ def run(ctx):
                 ctx.case(('pair', rsig, isig, how))
                 for sig, what in check_pair(rsig, isig, how):
                     ctx.violation(sig + ':' + how, what, 'from falsify.C17 import replay\nreplay("pair", %r, %r, %r)\n' % (rsig, isig, how))
+    orders = [('class', 'classobj', 'class'), ('classobj', 'class', 'object'), ('object', 'classobj', 'object'), ('class', 'object', 'classobj')]
+    for rsig in SIGS:
+        for isig in SIGS[::2] if ctx.tier == 'quick' else SIGS:
+            for order in orders:
+                if ctx.too_many():
+                    return
+                ctx.case(('roles', rsig, isig, order))
+                for sig, what in check_roles(rsig, isig, order):
+                    ctx.violation(sig, what, 'from falsify.C17 import replay\nreplay("roles", %r, %r, %r)\n' % (rsig, isig, order))
     ctx.sample({'interface': 'm(a0, o0=0, *args)', 'implementation': 'm(self, a0, **kw)', 'oracle': 'Signature.bind on admitted shapes'})
     names = ['x0', 'f0', 'x1', 'f1', 'f2']
     for deep in (False, True):
